@@ -75,10 +75,13 @@ Theorem C11_alloc_bound_calldata :
 Proof. exact DecodeCallData_alloc_bound. Qed.
 Print Assumptions C11_alloc_bound_calldata.
 
-(* the bound is a polynomial in the data length whose degree is the nesting of dynamic arrays *)
+(* the bound is a polynomial in the data length whose degree is the nesting of arrays; a fixed
+   array contributes min(declared length, n/32 + 1) entries (the declared length itself only when
+   its element type occupies no bytes) *)
 Theorem C11_bound_shape :
   (forall ch k n, bound (TCDynArr ch k) n = (1 + (n / 32 + 1) + (n / 32 + 1) * bound ch n)%N) /\
-  (forall len ch k n, bound (TCFixedArr len ch k) n = (1 + 2 * Z.to_N len + Z.to_N len * bound ch n)%N) /\
+  (forall len ch k n, bound (TCFixedArr len ch k) n =
+     (let c := fixed_count len (occupiesHeadBytes ch) n in 1 + 2 * c + c * bound ch n)%N) /\
   (forall l k n, bound (TCTuple l k) n = (1 + N.of_nat (length l) + fold_right (fun ch acc => bound ch n + acc) 0 l)%N) /\
   (forall c n n', (n <= n')%N -> (bound c n <= bound c n')%N).
 Proof. exact (conj bound_dyn (conj bound_fixed (conj bound_tuple bound_mono))). Qed.
@@ -232,4 +235,11 @@ Example C11_stable_hypotheses_met :
             end
   | _ => false
   end = true.
+Proof. vm_compute. auto. Qed.
+(* D11b: the declared length of a fixed array does not enter either: uint256[4294967295] on an empty
+   input is an error that requests nothing, and its bound for 0 bytes of data is 8 units *)
+Example C11_declared_length_does_not_matter :
+  let c := tc_of_ty (TTuple [TFixedArr (TUInt 256) 4294967295]) in
+  tc_wf c = true /\ no_zero_size_elem c = true /\
+  DecodeABIData_c c [] 0 = (Err ENotEnoughValue, 2%N) /\ bound c 0 = 8%N.
 Proof. vm_compute. auto. Qed.
